@@ -102,6 +102,44 @@ pub fn run(ctx: &mut Ctx) {
             }
         }
     }
+    // numbers with the longest JSON texts: as operand, next to other operands, inside arrays (to any depth), read
+    // from data, as the source of substr
+    for v in al::long_number_texts().into_iter().chain(al::magnitude_ladder()) {
+        if !ctx.mine() {
+            continue;
+        }
+        ctx.edge();
+        let d = json!({"v": v, "vs": [v, v]});
+        ctx.check("cat:long-number", &json!({"cat": [v]}), &null);
+        ctx.check("cat:long-number", &json!({"cat": ["<", v, "|", v, ">"]}), &null);
+        ctx.check("cat:long-number", &json!({"cat": [[v], [[v, null], v]]}), &null);
+        ctx.check("cat:long-number:V", &json!({"cat": [{"var": "v"}, {"var": "vs"}]}), &d);
+        ctx.check("cat:long-number:U", &json!({"cat": v}), &null);
+        ctx.check("cat:long-number:computed", &json!({"cat": [{"*": [{"var": "v"}, 1]}, {"max": [{"var": "v"}]}]}), &d);
+        for (i, l) in [(0i64, None), (-1, None), (-3, None), (20, None), (0, Some(-1i64)), (1, Some(23)), (-24, Some(24))] {
+            let mut args = vec![json!({"var": "v"}), json!(i)];
+            if let Some(l) = l {
+                args.push(json!(l));
+            }
+            ctx.check("substr:long-number", &json!({"substr": args}), &d);
+        }
+    }
+    // the bracket-less spelling with an operand that is an EXPRESSION (evaluating to an array, a string, null, a
+    // number): one operand, whose string form is the result
+    {
+        let d = json!({"xs": ["a", "b", "c"], "one": ["z"], "empty": [], "nul": [null], "s": "str", "n": 5, "nested": [["a"], ["b", ["c"]]]});
+        for e in [json!({"var": "xs"}), json!({"var": "one"}), json!({"var": "empty"}), json!({"var": "nul"}), json!({"var": "s"}), json!({"var": "n"}), json!({"var": "nested"}), json!({"var": "nope"}),
+                  json!({"merge": [["a"], ["b"]]}), json!({"map": [{"var": "xs"}, {"var": ""}]}), json!({"filter": [{"var": "xs"}, true]}), json!({"if": [true, ["p", "q"]]}), json!({"missing": ["u", "v"]})] {
+            if !ctx.mine() {
+                continue;
+            }
+            ctx.edge();
+            ctx.check("cat:bare:computed", &al::obj1("cat", e.clone()), &d);
+            ctx.check("cat:bare:computed:nested", &json!({"cat": ["<", al::obj1("cat", e.clone()), ">"]}), &d);
+            ctx.check("cat:bracketed:computed", &json!({"cat": [e]}), &d);
+            ctx.check("substr:bare-source:computed", &json!({"substr": [al::obj1("cat", e.clone()), 1]}), &d);
+        }
+    }
     // string form of arrays: every array of length 1..3 over an 8-element alphabet (empty and nested
     // arrays, nulls, objects next to each other), alone, wrapped and between strings
     if release {
